@@ -212,7 +212,7 @@ let bump k = Hashtbl.replace fetch_stats k (1 + (try Hashtbl.find fetch_stats k 
 (* the theorem consume_any_order applied to the implementation: when the decidable hypotheses hold for the event list
    of the case (run_ok, and for the strong conclusion run_clean and quiescence), its conclusion is evaluated on the
    callbacks the IMPLEMENTATION made *)
-let fetch_case_oracle (objs : (string * n list list) list) (evs : cev list) (impl_log : (int * cbrec) list) (diverged : bool) =
+let fetch_case_oracle (objs : (string * n list list) list) (evs : cev list) (impl_log : (int * cbrec) list) (diverged : bool) (impl_quiet : bool) =
   let (_, _), cfin0 = run_checkb (fun _ -> []) cl_init evs in
   let fetch_of sid = string_of_name (List.nth cfin0.c_streams sid).s_fetch in
   let w (sid : nat) : n list list =
@@ -224,6 +224,16 @@ let fetch_case_oracle (objs : (string * n list list) list) (evs : cev list) (imp
     bump "theorem-applies";
     let quiet = quiescentb cfin in
     if quiet then bump "quiescent"; if clean then bump "clean";
+    (* the property itself on the implementation's observations, independent of the model's state: the implementation has
+       nothing queued and nothing in flight (nothing will ever happen again) — then every consumer must have had its
+       one completion callback *)
+    if impl_quiet then
+      List.iteri (fun sid (_ : stream) ->
+        let log = List.map snd (List.filter (fun (s, _) -> s = sid) impl_log) in
+        if int_of_nat (completions log) = 0 then
+          oracle "fetch:impl-quiescent-consumer-never-completed"
+            (Printf.sprintf "stream %d (%s): the client has nothing queued and no Interest pending, yet this consumer's callback never reported completion (%d callbacks)"
+               sid (fetch_of sid) (List.length log))) cfin.c_streams;
     if quiet && clean then bump "quiescent+clean";
     List.iteri (fun sid (_ : stream) ->
       let log = List.map snd (List.filter (fun (s, _) -> s = sid) impl_log) in
@@ -242,7 +252,7 @@ let fetch_case_oracle (objs : (string * n list list) list) (evs : cev list) (imp
   end else bump (if wf then "dishonest-or-malformed-replies" else "ill-formed-object")
 
 let run_fetch () =
-  let objs = ref [] and evs = ref [] and impl_log = ref [] and any_div = ref false in
+  let objs = ref [] and evs = ref [] and impl_log = ref [] and any_div = ref false and impl_quiet = ref false in
   let c = ref cl_init and evno = ref 0 and impl_cbs = ref [] and last_ev = ref "" and stop = ref false in
   let logs_len = ref [] in    (* per stream: number of callback records already printed *)
   let new_cb_lines () =
@@ -261,7 +271,8 @@ let run_fetch () =
       let line = input_line stdin in
       match String.split_on_char ' ' line with
       | ["FETCH"] -> incr ncases; c := cl_init; evno := 0; impl_cbs := []; logs_len := []; stop := false;
-          objs := []; evs := []; impl_log := []; any_div := false
+          objs := []; evs := []; impl_log := []; any_div := false; impl_quiet := false
+      | ["QUIET"; q] -> impl_quiet := (q = "1")
       | ["OBJ"; nm; segs] -> objs := (nm, wire_of_string segs) :: !objs
       | "CB" :: sid :: complete :: err :: progress :: max :: [chunk] when !stop ->
           impl_log := (int_of_string sid, { cb_complete = (complete = "1"); cb_err = (if err = "-" then None else Some (n_of_dec err));
@@ -313,7 +324,7 @@ let run_fetch () =
       | "HANG" :: what ->
           oracle ("fetch:hang:" ^ String.concat "_" what)
             (Printf.sprintf "event %d (%s): the client's goroutine never returned from %s" !evno (short !last_ev) (String.concat " " what))
-      | ["END"] -> fetch_case_oracle !objs (List.rev !evs) (List.rev !impl_log) !any_div
+      | ["END"] -> fetch_case_oracle !objs (List.rev !evs) (List.rev !impl_log) !any_div !impl_quiet
       | [""] | [] -> ()
       | _ -> print_endline ("BADLINE " ^ short line)
     done
